@@ -548,6 +548,40 @@ func (fx *fixtureT) modeOf(seg []string, ws []write, headBefore common.Hash) str
 	return "none"
 }
 
+// whereOf says WHERE a crash after write j of the call fell: the kind of the last completed write that is not a state (trie)
+// write, and its position with respect to the head moves (head-header marker, number->hash entry, head-block marker) of the call.
+func whereOf(ws []write, j int) []string {
+	last, moves, inmove := "-", 0, false
+	for i := 0; i <= j && i < len(ws); i++ {
+		k, _ := ws[i].rec["k"].(string)
+		switch k {
+		case "trie", "other":
+			continue
+		case "txl":
+			last = "lookup"
+		case "batch":
+			last = "lookupbatch"
+		case "deltx":
+			last = "delbatch"
+		default:
+			last = k
+		}
+		if k == "headH" {
+			inmove = true
+		} else if k == "headB" {
+			inmove = false
+			moves++
+		}
+	}
+	pos := "before_moves"
+	if inmove {
+		pos = "inside_move"
+	} else if moves > 0 {
+		pos = "after_complete_move"
+	}
+	return []string{"last_" + last, pos}
+}
+
 // ---------------------------------------------------------------- the driver
 
 func run(env *drive.Env) error {
@@ -626,19 +660,20 @@ func (fx *fixtureT) behaviour(env *drive.Env, offers [][]string, maxPoints int) 
 				continue
 			}
 			w := ws[j]
+			where := whereOf(ws, j)
 			d2 := fromSnap(fx, w.snap)
 			// marker: if the process dies from here on, it died while restarting / recovering
 			env.Emit(map[string]interface{}{"ev": "restarting", "k": k, "j": j, "after": w.kind, "mode": mode})
 			bc2, rerr := newChain(d2)
 			if rerr != nil {
-				env.Emit(map[string]interface{}{"ev": "restart", "k": k, "j": j, "after": w.kind, "mode": mode, "ok": false, "err": errClass(rerr)})
+				env.Emit(map[string]interface{}{"ev": "restart", "k": k, "j": j, "after": w.kind, "mode": mode, "where": where, "ok": false, "err": errClass(rerr)})
 				continue
 			}
-			env.Emit(map[string]interface{}{"ev": "restart", "k": k, "j": j, "after": w.kind, "mode": mode, "ok": true, "obs": fx.observe(bc2, d2)})
+			env.Emit(map[string]interface{}{"ev": "restart", "k": k, "j": j, "after": w.kind, "mode": mode, "where": where, "ok": true, "obs": fx.observe(bc2, d2)})
 			// "once the interrupted blocks and any one further valid block are imported again": a Go panic of the code under
 			// test while doing so is recorded (the process would die); logging.Crit still ends the driver (see "recovering")
 			env.Emit(map[string]interface{}{"ev": "recovering", "k": k, "j": j, "after": w.kind, "mode": mode})
-			rec := map[string]interface{}{"ev": "recovered", "k": k, "j": j, "after": w.kind, "mode": mode, "further": further, "ref": refObs}
+			rec := map[string]interface{}{"ev": "recovered", "k": k, "j": j, "after": w.kind, "mode": mode, "where": where, "further": further, "ref": refObs}
 			func() {
 				defer func() {
 					if r := recover(); r != nil {
